@@ -94,7 +94,7 @@ Proof. intros f [] t x H; simpl; [rewrite app_nil_r; exact H | reflexivity]. Qed
 Lemma head_is_tokens : forall f o m th, head f o m th = concat (map (render_tok f) (head_toks o m th)).
 Proof.
   intros. unfold head, head_toks. rewrite !concat_map_app.
-  rewrite (opt_tok_render f (o_timer o) TTimer _ eq_refl).
+  rewrite (opt_tok_render f (o_timer o) (TTimer (time_text m)) _ eq_refl).
   rewrite (opt_tok_render f (o_level o) (TLevel (e_level m)) _ eq_refl).
   rewrite (opt_tok_render f (o_tname o) (TThreadName (th_name th)) _ eq_refl).
   rewrite (opt_tok_render f (o_tid o) (TThreadId (th_id th)) _ eq_refl).
@@ -298,7 +298,8 @@ Qed.
 
 Definition tok_clean (t : tok) : bool :=
   match t with
-  | TTimer | TLevel _ | TScopeEnd => true
+  | TLevel _ | TScopeEnd => true
+  | TTimer b => clean_b b
   | TThreadName b | TThreadId b | TTarget b | TFile b _ | TLine b | TSpanFields b => clean_b b
   | TSpan n fs => clean_b n && clean_b fs
   | TField _ n v => clean_b n && clean_b v
@@ -308,7 +309,7 @@ Definition tok_clean (t : tok) : bool :=
 Lemma render_tok_clean : forall f t, tok_clean t = true -> has10 (render_tok f t) = false.
 Proof.
   intros f t H. destruct t; cbn [render_tok tok_clean] in *; try discriminate.
-  - reflexivity.
+  - rewrite has10_app, (clean_b_false _ H). reflexivity.
   - rewrite has10_app, level_str_clean. reflexivity.
   - rewrite has10_app, (clean_b_false _ H). reflexivity.
   - rewrite has10_app, (clean_b_false _ H). reflexivity.
@@ -340,12 +341,17 @@ Theorem single_line : forall f o th m sc fl fs, ok_fields fl = Some fs ->
 Proof.
   intros f o th m sc fl fs H C. rewrite (content_tokens f o th m sc fl fs H).
   unfold inputs_nl_free in C.
-  repeat (apply andb_prop in C as [C ?]).
+  apply andb_prop in C as [C H0]. apply andb_prop in C as [C H1]. apply andb_prop in C as [C Htm].
+  apply andb_prop in C as [C Hln]. apply andb_prop in C as [C Hfi]. apply andb_prop in C as [C Htg].
+  apply andb_prop in C as [C Hid].
+  assert (Htt : clean_b (time_text m) = true).
+  { unfold time_text, clean_o in *. destruct (e_time m) as [pre|]; [|reflexivity].
+    unfold clean_b in *. rewrite has10_app. destruct (has10 pre); [discriminate | reflexivity]. }
   assert (Hh : forallb tok_clean (head_toks o m th) = true).
-  { unfold head_toks, opt_tok. destruct (o_timer o), (o_level o), (o_tname o), (o_tid o); simpl; rewrite ?C, ?H5; reflexivity. }
+  { unfold head_toks, opt_tok. destruct (o_timer o), (o_level o), (o_tname o), (o_tid o); simpl; rewrite ?C, ?Hid, ?Htt; reflexivity. }
   assert (Hl : forallb tok_clean (loc_toks o m) = true).
   { unfold loc_toks, opt_tok, shown_line. unfold clean_o in *.
-    destruct (o_target o), (o_file o), (e_file m), (o_line o), (e_line m); simpl; rewrite ?H4, ?H3, ?H2; reflexivity. }
+    destruct (o_target o), (o_file o), (e_file m), (o_line o), (e_line m); simpl; rewrite ?Htg, ?Hfi, ?Hln; reflexivity. }
   assert (Hf : forall first, forallb tok_clean (field_toks first fs) = true).
   { clear - H0. induction fs as [|[n v] r IH]; intros first; simpl in *; [reflexivity|].
     apply andb_prop in H0 as [A B]. rewrite A, (IH B false). reflexivity. }
@@ -374,7 +380,7 @@ Qed.
 (** Non-vacuity: the F9 replay's first record, and a compact record inside two spans. *)
 Example content_example_full :
   let o := Opts false true false false true false false in
-  let m := EMeta 3 (str "p") (str "event e1") None None false in
+  let m := EMeta 3 (str "p") (str "event e1") None None false None in
   let fl := FOk (str "message") (str "first") (FOk (str "a") (str "1") FNil) in
   format_event Full o (Thr [] []) (Em m [] fl) = OOk (str " INFO p: first a=1" ++ [10])
   /\ inputs_nl_free (Thr [] []) m [] [(str "message", str "first"); (str "a", str "1")] = true.
@@ -382,7 +388,7 @@ Proof. vm_compute. auto. Qed.
 
 Example content_example_compact :
   let o := Opts false true false false true false false in
-  let m := EMeta 2 (str "app") (str "event e") None None false in
+  let m := EMeta 2 (str "app") (str "event e") None None false None in
   let sc := [Span (str "outer") [[(str "a", str "1")]; [(str "b", str "2")]] (str "app") false; Span (str "inner") [[]] (str "app") false] in
   format_event Compact o (Thr [] []) (Em m sc (FOk (str "k") (str "7") FNil)) = OOk (str "! app:k=7 a=1 b=2" ++ [10]).
 Proof. vm_compute. auto. Qed.
@@ -489,7 +495,7 @@ Proof.
   intros o th m sc fl fs H. unfold format_event_pretty. rewrite (p_fields_are_tokens fl true fs H).
   f_equal. unfold ptokens_spec, p_before, p_location.
   rewrite !concat_map_app_p.
-  rewrite (popt_render (o_timer o) PTimer _ eq_refl).
+  rewrite (popt_render (o_timer o) (PTimer (time_text m)) _ eq_refl).
   rewrite (popt_render (o_level o) (PLevel (e_level m)) _ eq_refl).
   rewrite (popt_render (o_target o) (PTarget (e_target m)) _ eq_refl).
   rewrite <- p_spans_are_tokens.
@@ -531,7 +537,7 @@ Proof.
   - rewrite !filter_app, F2, S2. unfold popt.
     destruct (o_timer o), (o_level o), (o_target o), (shown_line o m), (o_file o), (p_shown_file o m), (p_thread o);
       simpl; rewrite ?app_nil_r; reflexivity.
-  - exists (popt (o_timer o) PTimer ++ popt (o_level o) (PLevel (e_level m)) ++ popt (o_target o) (PTarget (e_target m)) ++
+  - exists (popt (o_timer o) (PTimer (time_text m)) ++ popt (o_level o) (PLevel (e_level m)) ++ popt (o_target o) (PTarget (e_target m)) ++
             (match shown_line o m with Some l => if o_file o then [] else [PLineInline l] | None => [] end) ++ [PGap] ++
             pfield_toks true fs ++ [PEol] ++
             (match p_shown_file o m with Some f => [PAt f (shown_line o m) (p_thread o)] | None => popt (p_thread o) POnIndent end) ++
@@ -602,16 +608,16 @@ Lemma pretty_root_fallback_refuted :
   let cur := [Span (str "req") [[(str "id", str "7")]] (str "app") false] in
   pretty_scope true true [] cur = cur
   /\ format_event_pretty (Opts false true false false false false false) (Thr [] [])
-       (Em (EMeta 3 (str "app") (str "event e") None None false) (pretty_scope true true [] cur) (FOk (str "message") (str "root event") FNil))
+       (Em (EMeta 3 (str "app") (str "event e") None None false None) (pretty_scope true true [] cur) (FOk (str "message") (str "root event") FNil))
      = OOk (str "   INFO  root event" ++ [10] ++ str "    in req with id: 7" ++ [10; 10])
   /\ format_event_pretty (Opts false true false false false false false) (Thr [] [])
-       (Em (EMeta 3 (str "app") (str "event e") None None false) (pretty_scope false true [] cur) (FOk (str "message") (str "root event") FNil))
+       (Em (EMeta 3 (str "app") (str "event e") None None false None) (pretty_scope false true [] cur) (FOk (str "message") (str "root event") FNil))
      = OOk (str "   INFO  root event" ++ [10; 10]).
 Proof. vm_compute. auto. Qed.
 
 Example content_example_pretty :
   let o := Opts false true true true true true true in
-  let m := EMeta 2 (str "app") (str "event e") (Some (str "src/main.rs")) (Some (str "42")) false in
+  let m := EMeta 2 (str "app") (str "event e") (Some (str "src/main.rs")) (Some (str "42")) false None in
   let sc := [Span (str "outer") [[(str "a", str "1")]; [(str "b", str "2")]] (str "app::db") false; Span (str "inner") [[]] (str "app") false] in
   format_event_pretty o (Thr (str "wk00") (str "ThreadId(7)")) (Em m sc (FOk (str "message") (str "hello") (FOk (str "k") (str "7") FNil)))
   = OOk (str "   WARN app: hello, k: 7" ++ [10] ++ str "    at src/main.rs:42 on wk00 ThreadId(7)" ++ [10]
@@ -690,7 +696,7 @@ Qed.
     ordinary event inside the span: nothing is written for it (std locks); with locks that do not poison it is. *)
 Example F132_witness :
   let sp := Span (str "sp") [[(str "a", str "1")]] (str "app") true in
-  let m := EMeta 3 (str "app") (str "event e") None None false in
+  let m := EMeta 3 (str "app") (str "event e") None None false None in
   let o := Opts false true false false true false false in
   let em := Em m [sp] (FOk (str "message") (str "inside") FNil) in
   ok_fields (FOk (str "message") (str "inside") FNil) = Some [(str "message", str "inside")]
@@ -698,3 +704,25 @@ Example F132_witness :
   /\ records true (gev_of (guarded false (format_event Full o (Thr [] []))) em)
      = [(m, str " INFO sp{a=1}: app: inside" ++ [10])].
 Proof. vm_compute. auto. Qed.
+
+(** ** A failing timer: the record is there, with "<unknown time>" where the timestamp would be *)
+Lemma time_guard_fallback : forall timer_on fe em, time_guard true timer_on fe em = fe em.
+Proof. intros timer_on fe [m sc fl]. unfold time_guard. destruct (e_time m); [rewrite andb_false_r|]; reflexivity. Qed.
+
+Lemma timer_token_when_failing : forall f o th m sc fs pre, o_timer o = true -> e_time m = Some pre ->
+  exists rest, tokens_spec f o th m sc fs = TTimer (pre ++ str "<unknown time>") :: rest.
+Proof.
+  intros f o th m sc fs pre T E. unfold tokens_spec, head_toks, time_text. rewrite T, E.
+  destruct f; simpl; eauto.
+Qed.
+
+Example timer_failure_example :
+  let o := Opts true true false false true false false in
+  let m := EMeta 3 (str "app") (str "event e") None None false (Some (str "12:")) in
+  let em := Em m [] (FOk (str "message") (str "hello") FNil) in
+  format_event Full o (Thr [] []) em = OOk (str "12:<unknown time>  INFO app: hello" ++ [10])
+  /\ format_event_pretty o (Thr [] []) em = OOk (str "  12:<unknown time>  INFO app: hello" ++ [10; 10])
+  /\ time_guard true true (format_event Full o (Thr [] [])) em = format_event Full o (Thr [] []) em
+  /\ time_guard false true (format_event Full o (Thr [] [])) em = OErr (str "12:") (errline m)
+  /\ records false (gev_of (time_guard false true (format_event Full o (Thr [] []))) em) = [].
+Proof. vm_compute. auto 6. Qed.
